@@ -135,7 +135,7 @@ class Comp:
 class Revision:
     def __init__(self, entries, fmt="table", trailer=None, size=None, xref_num=None, objstm_nums=None,
                  eol=b" \n", split=None, w=None, objstm_filter=None, xref_filter=None, objstm_ws=b" ", member_sep=b" ",
-                 omit_from_xref=()):
+                 omit_from_xref=(), objstm_transform=None):
         self.entries = dict(entries)          # num -> Obj | Free | Comp
         self.fmt = fmt                        # "table" | "stream"
         self.trailer = dict(trailer or {})    # extra trailer entries (Root, Info, ID, Encrypt …)
@@ -150,6 +150,7 @@ class Revision:
         self.objstm_ws = objstm_ws            # white-space between the header pairs
         self.member_sep = member_sep          # bytes between members in the object stream body (may be b"")
         self.omit_from_xref = set(omit_from_xref)
+        self.objstm_transform = objstm_transform   # optional callable(num, Stream) -> Stream (e.g. encryption of the object stream)
 
 
 def encode_filter(name, data):
@@ -215,7 +216,10 @@ def write_file(revisions, header=b"%PDF-1.7\n", prefix=b"", binary_comment=True,
             d = {"Type": Name("ObjStm"), "N": len(members), "First": len(head)}
             if fname:
                 d["Filter"] = fname
-            extra[snum] = Obj(Stream(d, data))
+            st = Stream(d, data)
+            if rev.objstm_transform is not None:
+                st = rev.objstm_transform(snum, st)
+            extra[snum] = Obj(st)
             info["objstm"][snum] = [n for n, _ in members]
         # ---- bodies
         table = {}       # num -> ("n", off, gen) | ("f", nxt, gen) | ("c", stm, idx)
